@@ -295,7 +295,12 @@ fn base_lists(i: usize, max: usize) -> Vec<Vec<usize>> {
 
 /// All hierarchy shapes over n types: base lists x vftable-block flags (no impl functions).
 pub fn shapes(n: usize) -> Vec<Hier> {
-    let lists: Vec<Vec<Vec<usize>>> = (0..n).map(|i| base_lists(i, 3)).collect();
+    shapes_limited(n, 3)
+}
+
+/// Like `shapes`, with at most `max_bases` bases per type.
+pub fn shapes_limited(n: usize, max_bases: usize) -> Vec<Hier> {
+    let lists: Vec<Vec<Vec<usize>>> = (0..n).map(|i| base_lists(i, max_bases)).collect();
     let radices: Vec<usize> = lists.iter().map(|l| l.len()).collect();
     let mut out = vec![];
     for idx in 0..util::product(&radices) {
